@@ -580,6 +580,7 @@ def parent64(name):
 
 
 TWIN_EXPLICIT = {}
+TWIN_XMM_UNWRITTEN = {}     # case id -> index of the vector register the instruction only writes (left random on purpose)
 
 
 def gen_twin_instr_cases(seed, n):
@@ -590,6 +591,7 @@ def gen_twin_instr_cases(seed, n):
     cases, _ = instr_gen.generate(hs["release"], seed * 131 + 20, n)
     lines = []
     TWIN_EXPLICIT.clear()
+    TWIN_XMM_UNWRITTEN.clear()
     k = 0
     for c in cases:
         code = c["codename"]
@@ -622,7 +624,13 @@ def gen_twin_instr_cases(seed, n):
         L = ["case " + cid, "new %s %x %x" % (c["code"].hex(), c["rip"], c["rip"])]
         for g in sorted(explicit):
             L.append("regw 64 %s %x" % (g, c["regs"][order[g]]))
-        L.append("allxmm " + " ".join("%x" % v for v in c["xmm"]))
+        # a vector register the instruction only writes (MOVUPS / MOVD with an XMM destination different from the
+        # source) is left at its random value: the instruction defines it, so it must come out equal on both machines
+        xd = None
+        if fam in ("Movups", "Movd") and c["named"][0].startswith("XMM") and c["named"][1] != c["named"][0]:
+            xd = int(c["named"][0][3:])
+            TWIN_XMM_UNWRITTEN[cid] = xd
+        L.append("allxmm " + " ".join("-" if q == xd else "%x" % v for q, v in enumerate(c["xmm"])))
         L.append("flags %x" % c["flags"])
         if c["fs"]:
             L.append("fsw %x" % c["fs"])
@@ -666,8 +674,23 @@ def instr_twin_compare(cid, a, b):
                     return "register %s is neither named nor implicitly used by the instruction, yet it changed (%s -> %s)" % (g, d[0][3 + k], d[1][3 + k])
     if da[1][2] != db[1][2]:
         return "RIP differs: %s vs %s" % (da[1][2], db[1][2])
-    ra = [l for l in a if not l.startswith(("d regs", "x "))]
-    rb = [l for l in b if not l.startswith(("d regs", "x "))]
+    xd = TWIN_XMM_UNWRITTEN.get(cid)
+
+    def others(r):
+        out, first = [], True
+        for l in r:
+            if l.startswith(("d regs", "x ")):
+                continue
+            if l.startswith("d xmm"):
+                # the deliberately unwritten destination: before the step always, after it unless the step completed
+                if xd is not None and (first or not ok_a):
+                    t = l.split()
+                    t[2 + xd] = "?"
+                    l = " ".join(t)
+                first = False
+            out.append(l)
+        return out
+    ra, rb = others(a), others(b)
     if ra != rb:
         first = next(((x, y) for x, y in zip(ra, rb) if x != y), ("", ""))
         return "results differ: `%s` vs `%s`" % (first[0][:120], first[1][:120])
